@@ -104,166 +104,181 @@ class Timeline:
 
 
 def evaluate(case, out, v):
+    """History invariants, evaluated by one pass over the observed history:
+    per (task, clock) at most one pending scheduling (scheduling the same
+    object again moves it)."""
     hist = out['hist']
+    tasks = case['tasks']
     tl = [Timeline(t) for t in case['clocks']]
     for h in hist:
         if h['ev'] == 'tempo':
             # tempo changes are made by tasks running on that clock: the
             # change happens at the task's logical time
             tl[h['clock']].change(h['L'], h['tempo'], h['n'])
-    invs = {}
-    for h in hist:
-        if h['ev'] == 'inv':
-            invs.setdefault(h['task'], []).append(h)
-    specs = {}
-
-    def collect(ops):
-        for op in ops:
-            if op[0] in ('sched', 'sched_abs'):
-                specs[op[3]['id']] = op[3]
-                collect(op[3].get('do', []))
-    for th in case['threads']:
-        collect(th)
-    cancels = [h for h in hist if h['ev'] in ('clear', 'stop')]
-    inv_of_task = {}      # who 'taskN' -> its first invocation record
-    for tid, lst in invs.items():
-        inv_of_task[f'task{tid}'] = lst[0]
     labels = set()
-    nontrivial = False
-    per_clock = {}
+    pending = {}          # (task, clock) -> dict
+    done_invs = {}        # clock -> [(due, n_call, n_inv, T, t_call, tid, who)]
+    stopped = set()
+    finished = set()
+    clears = {}
     end = F(out['end'])
+    inv_L = {}            # 'taskN' -> logical time of its running invocation
+
+    def to_secs(clock, key):
+        return tl[clock].secs(key) if isinstance(clock, int) else key
+
+    def overdue(p, t_now):
+        due = to_secs(p['clock'], p['key'])
+        return due is not None and max(due, p['t_call']) + LAT < t_now
+
     for h in hist:
-        if h['ev'] not in ('sched', 'sched_abs'):
-            continue
-        clock = h['clock']
-        tid = h['task']
-        spec = specs[tid]
-        from_task = str(h['who']).startswith('task')
-        base = F(h['L']) if from_task else F(h['t'])
-        t_call = F(h['t'])
-        # scheduled time in clock units and in seconds
-        if isinstance(clock, int):
-            if h['ev'] == 'sched':
-                key = tl[clock].beats(base, h['n']) + F(h['delta'])
+        ev = h['ev']
+        if ev in ('sched', 'sched_abs'):
+            clock, tid = h['clock'], h['task']
+            if clock in stopped:
+                continue       # the clock is going away
+            from_task = str(h['who']).startswith('task')
+            base = F(h['L']) if from_task else F(h['t'])
+            t_call = F(h['t'])
+            if isinstance(clock, int):
+                key = (tl[clock].beats(base, h['n']) + F(h['delta'])
+                       if ev == 'sched' else F(h['when']))
+            elif clock == 'app' and ev == 'sched':
+                key = t_call + F(h['delta'])       # physical present
             else:
-                key = F(h['when'])
-            to_secs = tl[clock].secs
-        else:
-            key = base + F(h['delta']) if h['ev'] == 'sched' else F(h['when'])
-            if clock == 'app' and h['ev'] == 'sched':
-                key = t_call + F(h['delta'])     # physical present
-            to_secs = lambda x: x
-        got = invs.get(tid, [])
-        k = 0
-        n_call = h['n']
-        while True:
-            due = to_secs(key)
-            if due is None:
-                break
-            # clear(): cancels what is pending when it returns. stop():
-            # the clock is going away - whatever is or gets scheduled on it
-            # from the stop() call on may be dropped
-            # (a clear() by another thread at the very same virtual instant
-            # may have taken effect after the task was queued even if it was
-            # recorded first: AppClock.sched is two locked regions)
-            cancelled_by = [c for c in cancels if c['clock'] == clock
-                            and (c['n'] > n_call or c['ev'] == 'stop'
-                                 or F(c['t']) == t_call)]
-            if k >= len(got):
-                # not invoked: fine only if cancelled while still pending,
-                # or not yet due when the observation ended
-                pend_ok = any(F(c['t']) <= max(due, t_call) + LAT
-                              for c in cancelled_by)
-                pend_ok = pend_ok or any(c['ev'] == 'stop'
-                                         for c in cancelled_by)
-                if not pend_ok and max(due, t_call) + LAT < end:
-                    v.fail('task_never_invoked',
-                           f'task {tid} (invocation {k}) on {clock} due at '
-                           f'{float(due)} s never ran; history end '
-                           f'{float(end)}')
-                if pend_ok:
-                    labels.add('cancelled_pending')
-                break
-            g = got[k]
-            T = F(g['t'])
-            for c in cancelled_by:
-                if c['ev'] == 'clear' and g['n'] > c['n'] \
-                        and n_call < c['n']:
-                    v.fail('invoked_after_cancel',
-                           f'task {tid} scheduled before {c["ev"]} of '
-                           f'{clock} ran after it (t={float(T)})')
+                key = base + F(h['delta']) if ev == 'sched' \
+                    else F(h['when'])
+            if tid in finished:
+                continue       # awaking a finished routine does nothing
+            if (tid, clock) in pending:
+                labels.add('moved_pending_task')
+            pending[(tid, clock)] = dict(
+                clock=clock, key=key, n=h['n'], t_call=t_call, who=h['who'],
+                # AppClock.sched is two locked regions (queue, then notify):
+                # a clear() by another thread at the same virtual instant
+                # may have come between them although it was recorded first
+                maybe_cancelled=(clock == 'app' and
+                                 t_call in clears.get(clock, ())))
+        elif ev == 'inv':
+            clock, tid = h['clock'], h['task']
+            T = F(h['t'])
+            p = pending.pop((tid, clock), None)
+            if p is None:
+                if clock not in stopped:
+                    v.fail('invoked_without_pending_scheduling',
+                           f'task {tid} on {clock} ran at {float(T)} (its '
+                           f'invocation {h["k"]}) with no scheduling pending')
+                continue
+            due = to_secs(clock, p['key'])
             if T < due:
                 v.fail('invoked_early',
                        f'task {tid} on {clock}: ran at {float(T)} before '
                        f'its scheduled time {float(due)}')
-            if T > max(due, t_call) + LAT:
+            if T > max(due, p['t_call']) + LAT:
                 v.fail('invoked_late',
                        f'task {tid} on {clock}: due {float(due)} (scheduled '
-                       f'at {float(t_call)}) ran at {float(T)}, more than '
-                       f'the wake-up latency later')
+                       f'at {float(p["t_call"])}) ran at {float(T)}, more '
+                       f'than the wake-up latency later')
             if clock == 'sys':
-                if abs(F(g['L']) - due) > F(1, 2 ** 40):
+                if abs(F(h['L']) - due) > F(1, 2 ** 40):
                     v.fail('logical_time_not_scheduled_time',
-                           f'task {tid} on {clock}: logical {g["L"]} vs '
+                           f'task {tid} on sys: logical {h["L"]} vs '
                            f'scheduled {float(due)}')
             elif isinstance(clock, int):
-                # in the clock's own unit (a tempo change landing between
-                # the due instant and a late wake-up re-maps the seconds)
-                if abs(F(g['beats']) - key) > F(1, 2 ** 40):
+                if abs(F(h['beats']) - p['key']) > F(1, 2 ** 40):
                     v.fail('logical_time_not_scheduled_time',
                            f'task {tid} on clock {clock}: beats '
-                           f'{g["beats"]} vs scheduled {float(key)}')
-            per_clock.setdefault(clock, []).append(
-                (due, n_call, g['n'], T, t_call, tid, k,
-                 h['who'] if k == 0 else f'resched{tid}'))
-            rets = spec['rets']
-            r = rets[k] if k < len(rets) else None
-            if isinstance(r, (int, float)) and not isinstance(r, bool):
-                if clock == 'app':
-                    key = T + F(r)
-                else:
-                    key = key + F(r)
-                ret = [x for x in hist if x['ev'] == 'ret'
-                       and x['task'] == tid and x['k'] == k]
-                n_call = ret[0]['n'] if ret else g['n']
-                t_call = T
-                k += 1
-                continue
+                           f'{h["beats"]} vs scheduled {float(p["key"])}')
+            done_invs.setdefault(clock, []).append(
+                (due, p['n'], h['n'], T, p['t_call'], tid, p['who']))
+            h['_p'] = p
+        elif ev == 'ret':
+            clock, tid, k = h['clock'], h['task'], h['k']
+            spec = tasks[str(tid)]
+            r = spec['rets'][k] if k < len(spec['rets']) else None
+            inv = next((x for x in reversed(hist[:hist.index(h)])
+                        if x['ev'] == 'inv' and x['task'] == tid
+                        and x['k'] == k), None)
+            p = inv.get('_p') if inv else None
             if r == 'raise':
                 labels.add('raising_task')
-            k += 1
-            if k < len(got):
-                v.fail('invoked_too_often',
-                       f'task {tid} on {clock} ran {len(got)} times, '
-                       f'expected {k}')
-            break
+            if spec.get('routine') and r in (None, 'stop', 'raise'):
+                # the routine is done: its other wake-ups find it finished
+                finished.add(tid)
+                for key_ in [k_ for k_ in pending if k_[0] == tid]:
+                    del pending[key_]
+            if p is not None and isinstance(r, (int, float)) \
+                    and not isinstance(r, bool) and clock not in stopped:
+                if (tid, clock) in pending:
+                    labels.add('moved_pending_task')
+                key = (F(inv['t']) if clock == 'app' else p['key']) + F(r)
+                pending[(tid, clock)] = dict(
+                    clock=clock, key=key, n=h['n'], t_call=F(inv['t']),
+                    who=f'resched{tid}')
+        elif ev == 'clear':
+            clock = h['clock']
+            t_c = F(h['t'])
+            clears.setdefault(clock, set()).add(t_c)
+            for (tid, c), p in list(pending.items()):
+                if c != clock:
+                    continue
+                if p['n'] < h['n'] or p['t_call'] == t_c:
+                    if overdue(p, t_c):
+                        v.fail('task_never_invoked',
+                               f'task {tid} on {clock} due at '
+                               f'{float(to_secs(clock, p["key"]))} had not '
+                               f'run when clear() came at {float(t_c)}')
+                    del pending[(tid, c)]
+                    labels.add('cancelled_pending')
+        elif ev == 'stop':
+            stopped.add(h['clock'])
+            for key_ in [k_ for k_ in pending if k_[1] == h['clock']]:
+                del pending[key_]
+                labels.add('cancelled_pending')
+    for (tid, clock), p in pending.items():
+        if overdue(p, end) and not p.get('maybe_cancelled'):
+            v.fail('task_never_invoked',
+                   f'task {tid} on {clock} due at '
+                   f'{float(to_secs(clock, p["key"]))} s never ran; history '
+                   f'end {float(end)}')
+    # a clear() recorded just before a same-instant invocation may in fact
+    # have followed it; an invocation after an earlier clear is a violation
+    for h in hist:
+        if h['ev'] == 'inv' and h.get('_p') is not None:
+            p = h['_p']
+            for c in hist:
+                if c['ev'] == 'clear' and c['clock'] == h['clock'] and \
+                        p['n'] < c['n'] < h['n'] and F(c['t']) != p['t_call']:
+                    v.fail('invoked_after_cancel',
+                           f'task {h["task"]} scheduled before clear of '
+                           f'{h["clock"]} ran after it (t={h["t"]})')
     # order per clock
-    for clock, lst in per_clock.items():
+    for clock, lst in done_invs.items():
+        bad = None
         for a in lst:
             for b in lst:
                 # ties in scheduled time: scheduling order is observable
                 # only between calls of one caller or at different instants
-                # (two threads inside sched() at the same instant may be
-                # recorded in either order)
-                tie_known = a[7] == b[7] or a[4] < b[4]
+                tie_known = a[6] == b[6] or a[4] < b[4]
                 before = a[0] < b[0] or (a[0] == b[0] and a[1] < b[1]
                                          and tie_known)
-                if before and b[4] <= a[3] and a[2] > b[2]:
-                    v.fail('order_within_clock',
-                           f'{clock}: task {a[5]} (time {float(a[0])}) ran '
-                           f'after task {b[5]} (time {float(b[0])})')
+                if before and b[4] <= a[3] and b[1] < a[2] and a[2] > b[2]:
+                    bad = (a, b)
                     break
-            else:
-                continue
-            break
+            if bad:
+                break
+        if bad:
+            a, b = bad
+            v.fail('order_within_clock',
+                   f'{clock}: task {a[5]} (time {float(a[0])}) ran after '
+                   f'task {b[5]} (time {float(b[0])})')
     for name, ok in out['alive'].items():
-        stopped = any(c['ev'] == 'stop' and str(c['clock']) == name
-                      for c in cancels)
-        if not ok and not stopped:
+        if not ok and not any(str(c) == name for c in stopped):
             v.fail('clock_thread_died', f'clock {name}')
     if out['errors']:
         v.fail('clock_thread_raised', str(out['errors'])[:400])
     # non-trivial: new head while the clock thread sleeps on a later deadline
+    nontrivial = False
     waits = out['waits']
     for h in hist:
         if h['ev'] in ('sched', 'sched_abs'):
@@ -276,12 +291,14 @@ def evaluate(case, out, v):
                 if w[2] is None or w[2] > h['t'] + (h.get('delta') or 0):
                     labels.add('new_head_while_asleep')
                     nontrivial = True
-    if 'raising_task' in labels and len(specs) > 1:
+    if 'raising_task' in labels and len(tasks) > 1:
         nontrivial = True
-    if 'cancelled_pending' in labels:
+    if 'cancelled_pending' in labels or 'moved_pending_task' in labels:
         nontrivial = True
     if out['preempts']:
         labels.add('preempted')
+    if any(t.get('routine') for t in tasks.values()):
+        labels.add('routine_task')
     return {'nontrivial': nontrivial, 'labels': sorted(labels)}
 
 
@@ -291,27 +308,33 @@ def run_case(case, v):
         v.fail('deadlock', out['deadlock'])
         return {'nontrivial': False, 'labels': ['deadlock']}
     if 'error' in out:
+        if out.get('sc3_origin'):
+            v.fail('sc3_raised@' + out['sc3_origin'], out['error'])
+            return {'nontrivial': False, 'labels': ['sc3_raised']}
         raise RuntimeError(out['error'] + out.get('tb', ''))
     return evaluate(case, out, v)
 
 
 # --- generator ----------------------------------------------------------------------
 
-DELTAS = [0.125, 0.25, 0.25, 0.375, 0.5, 0.75, 1, 1.0]
+# mostly a coarse grid (callers and clocks become runnable at the same
+# instants), plus a few values 1/64 apart: deadlines closer to each other than
+# the wake-up latency
+DELTAS = [0.125, 0.25, 0.25, 0.375, 0.5, 0.75, 1, 1.0, 0.140625, 0.265625,
+          0.2578125]
 SLEEPS = [0.0625, 0.125, 0.125, 0.25, 0.25, 0.375, 0.5]
 
 
 @st.composite
 def cases(draw):
-    nclocks = draw(st.integers(0, 2))
+    nclocks = draw(st.sampled_from([0, 1, 1, 2, 2]))
     tempos = [draw(st.sampled_from([0.5, 2, 4])) for _ in range(nclocks)]
-    refs = ['sys', 'sys', 'app'] + list(range(nclocks))
-    refs_main = refs
-    refs_other = ['sys', 'sys', 'app'] + list(range(max(nclocks - 1, 0)))
-    tid = [0]
+    refs_main = ['sys', 'app'] + list(range(nclocks)) * 2
+    refs_other = ['sys', 'app'] + list(range(max(nclocks - 1, 0))) * 2
+    tasks = {}
 
     def task(depth=0, on=None):
-        tid[0] += 1
+        tid = len(tasks) + 1
         kind = draw(st.integers(0, 9))
         if kind <= 3:
             rets = [None]
@@ -326,39 +349,54 @@ def cases(draw):
             rets = [draw(st.sampled_from(DELTAS)), 'raise']
         else:
             rets = [draw(st.sampled_from(['hang', True]))]
-        t = {'id': tid[0], 'rets': rets}
-        if depth == 0 and draw(st.integers(0, 4)) == 0:
-            t['do'] = [['sched', draw(st.sampled_from(refs_other)),
-                        draw(st.sampled_from(DELTAS)), task(1)]]
-        elif depth == 0 and isinstance(on, int) and \
-                draw(st.integers(0, 2)) == 0:
+        t = {'rets': rets}
+        tasks[str(tid)] = t
+        if draw(st.integers(0, 2)) == 0:
+            # a Routine: while it runs, the library's current thread is the
+            # routine (and its logical time the scheduled time)
+            t['routine'] = True
+            if rets == [True]:
+                t['rets'] = ['hang']
+        if depth == 0 and isinstance(on, int) and draw(st.booleans()):
             # tempo change from a task of that clock, others asleep on it
             t['do'] = [['tempo', on, draw(st.sampled_from([0.5, 1, 2, 4]))]]
-        return t
+        elif depth == 0 and draw(st.integers(0, 3)) == 0:
+            # scheduling from inside a task; on AppClock this passes a lock
+            # hand-over in the middle of the task
+            t['do'] = [['sched', draw(st.sampled_from(
+                refs_other + ['app'])), draw(st.sampled_from(DELTAS)),
+                task(1)]]
+        return tid
 
     stopped = [False]
 
     def script(is_main):
         refs = list(refs_main if is_main else refs_other)
+        mine = []
         ops = []
         for _ in range(draw(st.integers(1, 7))):
-            k = draw(st.integers(0, 13))
+            k = draw(st.integers(0, 14))
             if k <= 6:
                 c = draw(st.sampled_from(refs))
-                ops.append(['sched', c, draw(st.sampled_from(DELTAS)),
-                            task(on=c)])
+                tid = task(on=c)
+                mine.append((tid, c))
+                ops.append(['sched', c, draw(st.sampled_from(DELTAS)), tid])
             elif k == 7:
                 # (AppClock has no sched_abs)
-                ops.append(['sched_abs', draw(st.sampled_from(
-                    [r for r in refs if r != 'app'])),
-                    draw(st.sampled_from(DELTAS)), task()])
+                c = draw(st.sampled_from([r for r in refs if r != 'app']))
+                tid = task(on=c)
+                mine.append((tid, c))
+                ops.append(['sched_abs', c, draw(st.sampled_from(DELTAS)),
+                            tid])
             elif k == 8:
                 ops.append(['clear', draw(st.sampled_from(refs))])
-            elif k == 9 and [r for r in refs if isinstance(r, int)]:
-                c = draw(st.sampled_from(
-                    [r for r in refs if isinstance(r, int)]))
-                ops.append(['sched', c, draw(st.sampled_from(DELTAS)),
-                            task(on=c)])
+            elif k in (9, 14) and mine:
+                # the same task object again, on the same clock (moved if
+                # still pending) or, sometimes, on another one
+                tid, c = draw(st.sampled_from(mine))
+                if c not in refs or draw(st.integers(0, 3)) == 0:
+                    c = draw(st.sampled_from(refs))
+                ops.append(['sched', c, draw(st.sampled_from(DELTAS)), tid])
             elif k == 10 and nclocks and is_main and not stopped[0]:
                 # the last TempoClock is used by the main thread only, so
                 # that stop() does not race with calls from other threads
@@ -373,10 +411,49 @@ def cases(draw):
     threads = [script(True)]
     for _ in range(draw(st.integers(0, 3))):
         threads.append(script(False))
-    return {'clocks': tempos, 'threads': threads,
+    return {'clocks': tempos, 'threads': threads, 'tasks': tasks,
             'tape': draw(st.lists(st.integers(0, 11), max_size=80)),
             'horizon': 6.0}
 
 
+@st.composite
+def handover_cases(draw):
+    """Aimed at one window: a Routine task is in the middle of its step
+    (the library's current thread is the routine, its logical time the
+    scheduled one) and passes a lock hand-over (it schedules on AppClock)
+    exactly when other threads, woken at the same instant, call sched()."""
+    nclocks = draw(st.integers(0, 1))
+    tempos = [draw(st.sampled_from([0.5, 2]))] * nclocks
+    d = draw(st.sampled_from([0.125, 0.25, 0.5]))
+    tasks = {}
+    host = draw(st.sampled_from(['sys'] + list(range(nclocks))))
+    tasks['2'] = {'rets': [None]}
+    tasks['1'] = {'rets': [draw(st.sampled_from([None, 0.25]))],
+                  'routine': True,
+                  'do': [['sched', 'app', 0.25, 2]] * draw(st.integers(1, 3))}
+    hd = d if host == 'sys' else d * tempos[0]
+    threads = [[['sched', host, hd, 1], ['sleep', d]]]
+    for i in range(draw(st.integers(1, 3))):
+        tid = str(len(tasks) + 1)
+        tasks[tid] = {'rets': [None],
+                      'routine': draw(st.booleans())}
+        tid2 = str(len(tasks) + 1)
+        tasks[tid2] = {'rets': [None]}
+        threads.append([['sleep', d],
+                        ['sched', 'sys', draw(st.sampled_from(
+                            [0.125, 0.25, 0.140625])), int(tid)],
+                        ['sched', draw(st.sampled_from(
+                            ['sys', 'app'] + list(range(nclocks)))),
+                         0.25, int(tid2)]])
+    threads[0] += [['sched', 'sys', 0.125, int(tid)]] \
+        if draw(st.booleans()) else []
+    return {'clocks': tempos, 'threads': threads, 'tasks': tasks,
+            'tape': draw(st.lists(st.integers(0, 11), min_size=8,
+                                  max_size=60)),
+            'horizon': 4.0}
+
+
 def stages(ctx):
-    return [Stage('history', run_case, cases(), quick=900, thorough=4000)]
+    return [Stage('history', run_case, cases(), quick=900, thorough=4000),
+            Stage('handover', run_case, handover_cases(), quick=400,
+                  thorough=3000)]
